@@ -157,6 +157,7 @@ func checkC01(w *Worker) {
 				defer uninstallMapOrder()
 				defer func() {
 					if r := recover(); r != nil {
+						rethrowSentinel(r)
 						err = fmt.Errorf("PANIC: %v", r)
 					}
 				}()
@@ -205,6 +206,7 @@ func checkC01(w *Worker) {
 				defer uninstallMapOrder()
 				defer func() {
 					if r := recover(); r != nil {
+						rethrowSentinel(r)
 						err = fmt.Errorf("PANIC: %v", r)
 					}
 				}()
@@ -357,6 +359,7 @@ func checkC01(w *Worker) {
 			defer uninstallMapOrder()
 			defer func() {
 				if r := recover(); r != nil {
+					rethrowSentinel(r)
 					err = fmt.Errorf("PANIC: %v", r)
 				}
 			}()
